@@ -140,9 +140,8 @@ SHA1_LOOPS = [
     {"function": "_crypt_crypt_sha1crypt_rn", "anchor": "for (i = 1; i < iterations; ++i)",
      "invariant": "i >= 1 && (i <= iterations || i == 1) && xv_hmac_calls >= 1", "decreases": "iterations - i"},
 ]
-SHA1_EXTRA = {"late_src": ["models/snprintf.c"], "timeout": 1200, "mem_gb": 10, "unwind": 10, "wip": True}
-JOBS += [_method("sha1crypt", "M_sha1crypt", SHA1_LOOPS, ["crypt_sha1crypt_rn", "to64"], extra=dict(SHA1_EXTRA, set_cap=128)),
-         _method("sha1crypt", "M_sha1crypt", SHA1_LOOPS, ["crypt_sha1crypt_rn", "to64"], weak=True, extra=dict(SHA1_EXTRA))]
+# crypt_sha1crypt_rn: the generic method harness ran out of memory on it; it has its own
+# lean harness (job "sha1crypt" below, harness/sha1crypt.c)
 
 def _region(unit):
     return {"name": "yescrypt_region_" + unit, "props": ["C15", "C04"],
@@ -165,11 +164,11 @@ JOBS.append({"name": "sha1crypt", "props": ["C01", "C03", "C04", "C05", "C06", "
              "late_src": ["models/snprintf.c"],
              "loops": [SHA1_LOOPS[0],
                        {"function": "_crypt_crypt_sha1crypt_rn", "anchor": "for (i = 1; i < iterations; ++i)",
-                        "invariant": "i >= 1 && (i <= iterations || i == 1) && g_calls == i && h_args_ok", "decreases": "iterations - i",
+                        "invariant": "i >= 1 && (i <= iterations || i == 1) && g_calls == i && h_args_ok && h1_len == __CPROVER_loop_entry(h1_len) && h1_at_j == __CPROVER_loop_entry(h1_at_j)", "decreases": "iterations - i",
                         "assigns": "i, g_calls, h_args_ok, h1_len, h1_at_j, __CPROVER_object_whole(hmac_buf)"}],
              "cases": [("nd%d" % k, "nd == %d" % k) for k in range(21)],
              "cases_quick": ["nd0", "nd1", "nd5", "nd10", "nd11", "nd20"],
              "cases_quick_note": "quick tier: iteration fields of 0, 1, 5, 10, 11 and 20 digits; thorough tier: every length 0..20 (exhaustive for the stated domain)",
-             "unwind": 10, "bounds": {"SPAN": 64, "STR": 32, "SPANEXACT": 24, "PCTS": 104}, "mem_gb": 6, "timeout": 2400, "no_native": True, "wip": True,
+             "unwind": 10, "bounds": {"SPAN": 64, "STR": 32, "SPANEXACT": 24, "PCTS": 104}, "mem_gb": 6, "timeout": 2400, "no_native": True,
              "bound": "strlen (setting) < 136, salt field of at most 104 characters (the first size check of the function assumes 64; the overrun it missed needs 65 or more)",
              "assumptions": ["hmac_sha1_process_data replaced by its contract (job hmac_sha1)", "A-dec for the printed iteration count"]})
